@@ -26,33 +26,33 @@ type SessScenario struct {
 }
 
 type sessRun struct {
-	rec   *Rec
-	g     *Gates
-	app   *App
-	disc  *DiscCounter
-	peer  erpc.Peer
-	sc    *SessScenario
-	sn    string // name of the session under test
-	sess  erpc.Session
-	a, b  *Conn
-	raw   socket.Socket
-	wmu   sync.Mutex
-	seqOf map[string]int32 // call id -> seq
-	nseq  int32
-	hseq  map[string]int32
-	calls map[string]*callObs
-	fin   map[string]chan struct{}
-	nfq   []int32
+	rec      *Rec
+	g        *Gates
+	app      *App
+	disc     *DiscCounter
+	peer     erpc.Peer
+	sc       *SessScenario
+	sn       string // name of the session under test
+	sess     erpc.Session
+	a, b     *Conn
+	raw      socket.Socket
+	wmu      sync.Mutex
+	seqOf    map[string]int32 // call id -> seq
+	nseq     int32
+	hseq     map[string]int32
+	calls    map[string]*callObs
+	fin      map[string]chan struct{}
+	nfq      []int32
 	ended    int32
-	curReply int32  // seq of the reply the reader is currently bound to (0: none)
-	sentq [][2]int32 // frames written by the raw peer, in order: {kind(1 reply,2 call), seq}
-	drift []string
+	curReply int32      // seq of the reply the reader is currently bound to (0: none)
+	sentq    [][2]int32 // frames written by the raw peer, in order: {kind(1 reply,2 call), seq}
+	drift    []string
 	wireSeen map[int32]bool
 	expBody  map[int32]string
-	wmu2  sync.Mutex
-	closed map[string]bool
-	holds  map[string]*Behav // free mode: handler holds by inbound call id
-	replied  map[string]bool // calls to which the raw peer sent a reply
+	wmu2     sync.Mutex
+	closed   map[string]bool
+	holds    map[string]*Behav // free mode: handler holds by inbound call id
+	replied  map[string]bool   // calls to which the raw peer sent a reply
 	connDown bool
 	anyBad   bool
 }
